@@ -1,6 +1,7 @@
 package main
 
 import (
+	"encoding/json"
 	"fmt"
 	"go/ast"
 	"go/token"
@@ -67,6 +68,7 @@ type Engine struct {
 
 	contentMode bool
 	curProp     string // property being verified ("" = all)
+	anchorFiles map[string][]string
 }
 
 func loadEngine(repo string) (*Engine, error) {
@@ -925,4 +927,51 @@ func (e *Engine) objectNameSorts(t types.Type, out map[string]string) {
 			e.objectNameSorts(et, out)
 		}
 	}
+}
+
+// inAnchorFiles: fn is declared in one of the files listed under anchors.files of the property
+// (read from properties.jsonl next to the known-findings file; missing file: no extension of the selection).
+func (e *Engine) inAnchorFiles(prop string, fn *ssa.Function) bool {
+	if fn == nil {
+		return false
+	}
+	if e.anchorFiles == nil {
+		e.anchorFiles = map[string][]string{}
+		path := os.Getenv("GOVC_PROPERTIES")
+		if path == "" {
+			path = "/verif/properties.jsonl"
+		}
+		if data, err := os.ReadFile(path); err == nil {
+			for _, line := range strings.Split(string(data), "\n") {
+				var p struct {
+					ID      string `json:"id"`
+					Anchors struct {
+						Files []string `json:"files"`
+					} `json:"anchors"`
+				}
+				if json.Unmarshal([]byte(line), &p) == nil && p.ID != "" {
+					e.anchorFiles[p.ID] = p.Anchors.Files
+				}
+			}
+		}
+	}
+	root := fn
+	for root.Parent() != nil {
+		root = root.Parent()
+	}
+	pos := root.Pos()
+	if !pos.IsValid() {
+		return false
+	}
+	file := e.fset.Position(pos).Filename
+	rel, err := filepath.Rel(e.repo, file)
+	if err != nil {
+		return false
+	}
+	for _, g := range e.anchorFiles[prop] {
+		if ok, _ := filepath.Match(g, rel); ok {
+			return true
+		}
+	}
+	return false
 }
